@@ -302,7 +302,7 @@ pub fn check_program(prog: &Program, seed: u64, thorough: bool, small: bool, rep
 pub fn run(p: &Params, rep: &mut Report) {
     if p.shard == 7 {
         // operand and class counts beyond 2^10 (and, for one term, beyond 2^16)
-        for n in if p.thorough { vec![1100u32, 2100, 4200, 1300 + (p.seed as u32 * 37) % 1700] } else { vec![1100u32, 1030 + (p.seed as u32 * 37) % 900] } {
+        for n in if p.thorough { vec![1100u32, 2100, 4200, 1300 + (p.seed as u32 * 37) % 1700] } else { vec![1100u32, 301 + (p.seed as u32 * 397) % 1700] } {
             super::ladder::wide_union(rep, "C19", n, p.seed);
         }
     }
